@@ -181,7 +181,7 @@ def whole_runs(ck, rng, thorough):
     scs = []
     for _ in range(n):
         s = simgen.gen_scenario(rng, {"nmarkets": [1, 2], "nstrats": [1, 2, 3], "p_close": 0.0, "min_upd": 5, "max_upd": 8, "no_remove": True, "p_remove": 0.0,
-                                      "p_inplay": 0.0, "kinds": ["L"], "p_place": 0.7, "p_manage": 0.2, "p_fok": 0.0, "types": ["WIN", "PLACE"]})
+                                      "p_inplay": 0.0, "kinds": ["L"], "p_place": 0.7, "p_manage": 0.2, "p_fok": 0.0, "types": ["WIN", "PLACE"], "even": False})
         for c in s["clients"]:
             c["commission"] = rng.choice([0.05, 0.02, 0.0, 0.065])
         if rng.random() < 0.4:
@@ -232,6 +232,17 @@ def whole_runs(ck, rng, thorough):
                 if got not in adm:
                     bad.append((i, "C08-profit-at-close", "order %s (%s %s @ %s on %s, result %s at this close): profit %s, the exchange's rules give %s cents" % (
                         x["o"], x["side"], x["matched"], x["avg"], x["sel"], st.get(x["sel"]), x["profit"], sorted(adm)), {"close_pt": o["pt"], "order": x}))
+                # ... and what the exchange pays on the FILLS themselves (the reported average is a 2-dp rounding of their volume-weighted price)
+                if m_c and x["frags"] and x["otype"] == "LIMIT" and st.get(x["sel"]) in ("WINNER", "LOSER"):
+                    sgn = 1 if x["side"] == "BACK" else -1
+                    if st.get(x["sel"]) == "WINNER":
+                        pay = sgn * sum(Fraction(str(f[2])) * (Fraction(str(f[1])) - 1) for f in x["frags"])
+                    else:
+                        pay = -sgn * sum(Fraction(str(f[2])) for f in x["frags"])
+                    tol = Fraction(m_c, 100) * Fraction(5, 1000) + Fraction(1, 100)
+                    if abs(Fraction(str(x["profit"])) - pay) > tol:
+                        bad.append((i, "C08-profit-vs-fills", "order %s: profit %s, its fills %s pay %.4f on a %s (more than a 2-dp average can explain)" % (
+                            x["o"], x["profit"], x["frags"], float(pay), st.get(x["sel"])), {"close_pt": o["pt"], "order": x}))
                 if m_c:
                     tot.setdefault(x["client"], []).append(got)
                     strategies_with_fills.add((x["client"], x["strategy"]))
